@@ -56,6 +56,21 @@ CHECKS = {
    text="For each of ~550 (quick) layouts: every service sub-request that declares the file variable is multipart and maps the same variable path to the same file name and bytes, sub-requests that do not use the variable carry no file, and data equals the reference (single-operation layouts).",
    note="Memory-level interference between two services reading one file is a recorded finding, not decided by schedule exploration.",
    ref="DESIGN.md §6 C19"),
+ "C03": dict(engine="enum", cat="exploration",
+   technique="bounded-exhaustive enumeration of schema sets (base + <=3 atoms from a 43-atom catalogue covering every type-system feature) x every permutation of the service list x both mergers, with the real merger called directly and its result compared fact-by-fact with the union of the inputs",
+   text="For each of ~10^5 (quick) merges: the result is a valid schema, its canonical facts (types, kinds, fields, argument names/types/defaults, enum values, union members, implements, possible types, input fields, directive definitions, root types) equal the union of the services' facts, and every <=2-field operation of each service validates against it.",
+   note="Trusted: schemacanon as the definition of schema equality (descriptions and applied directives excluded); gqlparser's SDL loader.",
+   ref="DESIGN.md §6 C03"),
+ "C04": dict(engine="enum", cat="exploration",
+   technique="same exhaustive schema-set enumeration as C03 with an oracle on MergeResult.TypeURLMap computed from the services' SDL",
+   text="Every root field routed to its unique declaring service, every non-id object field routed to a service that declares it, stitchable flag iff implements Node, routed URL set equals contributing services, no unrouted field - for every schema set, permutation and merger in the bound.",
+   note="Ground truth = the services' own SDL.",
+   ref="DESIGN.md §6 C04"),
+ "C05": dict(engine="enum", cat="exploration",
+   technique="exhaustive enumeration of (mergeable schema set, single conflict atom out of 40) x all permutations of the service list against the real merger",
+   text="Every conflict kind the statement lists, applied to every mergeable set with <=2 atoms, must be rejected with an error under every order of the service list (never a panic, never a silent success); accept/reject, merged facts and Node-field routes must not depend on the order, also for acceptable differences and for the mergeable sets themselves.",
+   note="The conflict catalogue mirrors the statement's list; single conflicts only.",
+   ref="DESIGN.md §6 C05"),
 }
 
 NOT_YET = {}
